@@ -487,7 +487,9 @@ def h_oct_text(ctx):
         else:
             from joserfc import jws
             r = call(jws.serialize_compact, {"alg": "HS256"}, b"x", text.decode())
-        flagged = [x for x in w if "safe" in str(x.message).lower() or "unsafe" in str(x.message).lower() or "asymmetric" in str(x.message).lower() or "PEM" in str(x.message)]
+        # any warning counts as the flag, except the unrelated deprecation notice about passing str/bytes keys
+        flagged = [x for x in w if not issubclass(x.category, DeprecationWarning)
+                   or any(t in str(x.message).lower() for t in ("safe", "pem", "ssh", "asymmetric", "private", "public"))]
     vs = []
     if r.ok and not flagged:
         vs.append(viol(f"{name.split(' ')[0]} key text imported as an oct secret without a warning ({name.split(' ')[1] if ' ' in name else name}; {route})",
